@@ -261,6 +261,9 @@ def decl_module(d, ops_wanted):
     if "PartialEq" in info.traits:
         # != and the comparison of a value with itself (the same object, and a clone when there is Clone)
         cmpf.append('out.push_str(&format!("ne={} ine={} self={}{} iself={}{} ", b(tx != ty), b(ix != iy), b(tx == tx), b(ty == ty), b(ix == ix), b(iy == iy)));')
+    if "PartialEq" in info.traits and inner == "String":
+        # the same text in a buffer with spare capacity
+        cmpf.append('{ let mut s2 = String::with_capacity(x.len() + 37); s2.push_str(&x); if let Some(t2) = %s { out.push_str(&format!("eqc={} ieqc=1 ", b(tx == t2 && t2 == tx))); } }' % (mk % "s2"))
     if "Clone" in info.traits:
         # clone_from into an existing value of another content
         cmpf.append('{ let mut u = ty.clone(); u.clone_from(&tx); let mut iu = iy.clone(); iu.clone_from(&ix); out.push_str(&format!("cf={} icf=1 ", b(u.into_inner().same(&iu)))); }')
